@@ -18,127 +18,11 @@ import (
 
 func TestMain(m *testing.M) { ev.Main(m, "C10") }
 
-// ---------- generator of valid documents as token lists
+type tok = gen.Tok
 
-type tok struct {
-	text string
-	kind byte // 'v' scalar value, 'k' key, '[' ']' '{' '}' ',' ':' 'w' whitespace
-}
+func genDoc(t *rapid.T) *gen.JSONDoc { return gen.GenJSON(t) }
 
-type docgen struct {
-	t        *rapid.T
-	toks     []tok
-	escapes  int
-	exps     int
-	contain  int
-	maxDepth int
-}
-
-func (g *docgen) ws() {
-	if rapid.IntRange(0, 3).Draw(g.t, "ws") == 0 {
-		g.toks = append(g.toks, tok{rapid.SampledFrom([]string{" ", "\t", "\n", "\r", "  ", " \n\t", "\r\n"}).Draw(g.t, "wstext"), 'w'})
-	}
-}
-
-var strFrags = []string{"a", "key", "x y", "é", "中", "😀", `\"`, `\\`, `\/`, `\b`, `\f`, `\n`, `\r`, `\t`, `A`, `é`, `😀`, `\u0000`, `\\\"`, `\\\\`, "'", "{", "}", "[", "]", ",", ":", " ", "0", "true", "//", "/*"}
-
-func (g *docgen) str() string {
-	n := rapid.IntRange(0, 5).Draw(g.t, "strn")
-	var sb strings.Builder
-	sb.WriteByte('"')
-	for i := 0; i < n; i++ {
-		f := rapid.SampledFrom(strFrags).Draw(g.t, "strfrag")
-		if f[0] == '\\' {
-			g.escapes++
-		}
-		sb.WriteString(f)
-	}
-	sb.WriteByte('"')
-	return sb.String()
-}
-
-func (g *docgen) number() string {
-	var sb strings.Builder
-	if rapid.Bool().Draw(g.t, "neg") {
-		sb.WriteByte('-')
-	}
-	if rapid.IntRange(0, 3).Draw(g.t, "zero") == 0 {
-		sb.WriteByte('0')
-	} else {
-		sb.WriteString(rapid.StringMatching(`[1-9][0-9]{0,18}`).Draw(g.t, "int"))
-	}
-	if rapid.Bool().Draw(g.t, "frac") {
-		sb.WriteString("." + rapid.StringMatching(`[0-9]{1,8}`).Draw(g.t, "fracd"))
-	}
-	if rapid.IntRange(0, 2).Draw(g.t, "exp") == 0 {
-		g.exps++
-		sb.WriteString(rapid.SampledFrom([]string{"e", "E"}).Draw(g.t, "e") + rapid.SampledFrom([]string{"", "+", "-"}).Draw(g.t, "esign") + rapid.StringMatching(`[0-9]{1,3}`).Draw(g.t, "expd"))
-	}
-	return sb.String()
-}
-
-func (g *docgen) value(depth int) {
-	kind := rapid.IntRange(0, 9).Draw(g.t, "kind")
-	if depth >= g.maxDepth && kind >= 6 {
-		kind = kind % 6
-	}
-	switch {
-	case kind <= 1:
-		g.toks = append(g.toks, tok{g.str(), 'v'})
-	case kind <= 3:
-		g.toks = append(g.toks, tok{g.number(), 'v'})
-	case kind <= 5:
-		g.toks = append(g.toks, tok{rapid.SampledFrom([]string{"true", "false", "null"}).Draw(g.t, "lit"), 'v'})
-	case kind <= 7:
-		g.contain++
-		g.toks = append(g.toks, tok{"[", '['})
-		n := rapid.IntRange(0, 4).Draw(g.t, "alen")
-		for i := 0; i < n; i++ {
-			if i > 0 {
-				g.ws()
-				g.toks = append(g.toks, tok{",", ','})
-			}
-			g.ws()
-			g.value(depth + 1)
-		}
-		g.ws()
-		g.toks = append(g.toks, tok{"]", ']'})
-	default:
-		g.contain++
-		g.toks = append(g.toks, tok{"{", '{'})
-		n := rapid.IntRange(0, 4).Draw(g.t, "olen")
-		for i := 0; i < n; i++ {
-			if i > 0 {
-				g.ws()
-				g.toks = append(g.toks, tok{",", ','})
-			}
-			g.ws()
-			g.toks = append(g.toks, tok{g.str(), 'k'})
-			g.ws()
-			g.toks = append(g.toks, tok{":", ':'})
-			g.ws()
-			g.value(depth + 1)
-		}
-		g.ws()
-		g.toks = append(g.toks, tok{"}", '}'})
-	}
-}
-
-func genDoc(t *rapid.T) *docgen {
-	g := &docgen{t: t, maxDepth: rapid.IntRange(0, 6).Draw(t, "maxDepth")}
-	g.ws()
-	g.value(0)
-	g.ws()
-	return g
-}
-
-func join(toks []tok) string {
-	var sb strings.Builder
-	for _, k := range toks {
-		sb.WriteString(k.text)
-	}
-	return sb.String()
-}
+func join(toks []tok) string { return gen.JoinJSON(toks) }
 
 // ---------- running the parser against the container-stack model
 
@@ -251,7 +135,7 @@ func TestProp_Valid(t *testing.T) {
 	ev.Describe("valid", "random value trees (depth <= 6, arrays/objects of 0-4 members) with strings from escape fragments (all escape forms, surrogate pairs, strings ending in \\\\ and \\\\\\\", raw UTF-8, structural characters inside strings), numbers in every RFC form, literals, whitespace at every structural position; every document is first confirmed by encoding/json.Valid; oracle: no ErrorGrammar before EOF (Err()==io.EOF), container stack/State() model, re-joined units == json.Compact(input); non-trivial = >= 2 containers or an escape or an exponent")
 	ev.Check(t, 20000, func(t *rapid.T) {
 		g := genDoc(t)
-		src := join(g.toks)
+		src := join(g.Toks)
 		if !stdjson.Valid([]byte(src)) {
 			t.Fatalf("generator bug: encoding/json rejects %q", src)
 		}
@@ -266,7 +150,7 @@ func TestProp_Valid(t *testing.T) {
 		if out != want.String() {
 			t.Fatalf("re-joined units of %q give %q, want %q", src, out, want.String())
 		}
-		ev.Case("valid", src, g.contain >= 2 || g.escapes > 0 || g.exps > 0, fmt.Sprintf("containers=%d", min(g.contain, 5)))
+		ev.Case("valid", src, g.Contain >= 2 || g.Escapes > 0 || g.Exps > 0, fmt.Sprintf("containers=%d", min(g.Contain, 5)))
 	})
 }
 
@@ -308,7 +192,7 @@ func TestProp_Any(t *testing.T) {
 func unitsBefore(toks []tok, i int) int {
 	n := 0
 	for _, k := range toks[:i] {
-		if k.kind != ',' && k.kind != ':' && k.kind != 'w' {
+		if k.Kind != ',' && k.Kind != ':' && k.Kind != 'w' {
 			n++
 		}
 	}
@@ -319,25 +203,25 @@ func TestProp_Mutants(t *testing.T) {
 	ev.Describe("mutants", "one mutation of a generated valid document: closing bracket swapped for the other kind, an unopened closer appended, one ',' between two values deleted, one ':' deleted, a key replaced by a number/literal/array; oracle: the stream ends with ErrorGrammar whose Err() is a *parse.Error (not io.EOF), all units before the mutation are emitted and none for the offending bracket/key or after it; non-trivial = document with >= 1 container (the mutation needs one, except the appended closer)")
 	ev.Check(t, 20000, func(t *rapid.T) {
 		g := genDoc(t)
-		toks := append([]tok(nil), g.toks...)
+		toks := append([]tok(nil), g.Toks...)
 		var cands []int
 		kind := rapid.SampledFrom([]string{"swap-closer", "extra-closer", "del-comma", "del-colon", "bad-key"}).Draw(t, "mutation")
 		for i, k := range toks {
 			switch kind {
 			case "swap-closer":
-				if k.kind == ']' || k.kind == '}' {
+				if k.Kind == ']' || k.Kind == '}' {
 					cands = append(cands, i)
 				}
 			case "del-comma":
-				if k.kind == ',' {
+				if k.Kind == ',' {
 					cands = append(cands, i)
 				}
 			case "del-colon":
-				if k.kind == ':' {
+				if k.Kind == ':' {
 					cands = append(cands, i)
 				}
 			case "bad-key":
-				if k.kind == 'k' {
+				if k.Kind == 'k' {
 					cands = append(cands, i)
 				}
 			}
@@ -347,7 +231,7 @@ func TestProp_Mutants(t *testing.T) {
 		case "extra-closer":
 			// after the complete top-level value
 			last := len(toks)
-			for last > 0 && toks[last-1].kind == 'w' {
+			for last > 0 && toks[last-1].Kind == 'w' {
 				last--
 			}
 			want = unitsBefore(toks, last)
@@ -361,7 +245,7 @@ func TestProp_Mutants(t *testing.T) {
 			switch kind {
 			case "swap-closer":
 				want = unitsBefore(toks, i)
-				if toks[i].kind == ']' {
+				if toks[i].Kind == ']' {
 					toks[i] = tok{"}", '}'}
 				} else {
 					toks[i] = tok{"]", ']'}
@@ -386,12 +270,12 @@ func TestProp_Mutants(t *testing.T) {
 		}
 		units, _, err := run(t, src)
 		if _, ok := err.(*parse.Error); !ok {
-			t.Fatalf("%s: %q (from %q) is not reported as a parse error: %d units, Err() = %v", kind, src, join(g.toks), len(units), err)
+			t.Fatalf("%s: %q (from %q) is not reported as a parse error: %d units, Err() = %v", kind, src, join(g.Toks), len(units), err)
 		}
 		if len(units) != want {
 			t.Fatalf("%s: %q: %d units were emitted before the error, the document has %d before the mutation (units %v)", kind, src, len(units), want, units)
 		}
-		ev.Case("mutants", kind+"|"+src, g.contain >= 1, "mutation="+kind)
+		ev.Case("mutants", kind+"|"+src, g.Contain >= 1, "mutation="+kind)
 	})
 }
 
